@@ -11,6 +11,7 @@ import (
 	"bytes"
 	"encoding/base64"
 	"encoding/hex"
+	"encoding/json"
 	"fmt"
 	"net"
 	"sort"
@@ -20,6 +21,7 @@ import (
 	"time"
 
 	"github.com/alibaba/RedisShake/pkg/libs/log"
+	conf "github.com/alibaba/RedisShake/redis-shake/configure"
 	"github.com/alibaba/RedisShake/verifrt/ev"
 	"github.com/alibaba/RedisShake/verifrt/hook"
 	"github.com/alibaba/RedisShake/verifrt/memconn"
@@ -317,4 +319,60 @@ func c19uClass(l string) string {
 		return "error-text"
 	}
 	return "other"
+}
+
+// TestVerif_C19Race: the masked configuration document is produced for several readers at once
+// (REST /conf polls, the start-up echo). Eight goroutines request it concurrently; no rendering
+// may contain a configured password. A -race build reports a masked copy shared between callers.
+func TestVerif_C19Race(t *testing.T) {
+	defer ev.Flush("C19")
+	if ev.ReplayFile() != "" {
+		return
+	}
+	si, _ := ev.ShardInfo()
+	if si != 0 {
+		return
+	}
+	conf.Options.SourcePasswordRaw, conf.Options.TargetPasswordRaw = c19uPw, c19uPw
+	conf.Options.SourcePasswordEncoding, conf.Options.TargetPasswordEncoding = c19uPw, c19uPw
+	defer func() {
+		conf.Options.SourcePasswordRaw, conf.Options.TargetPasswordRaw = "", ""
+		conf.Options.SourcePasswordEncoding, conf.Options.TargetPasswordEncoding = "", ""
+	}()
+	var wg sync.WaitGroup
+	var mu sync.Mutex
+	bad := ""
+	const workers, rounds = 8, 3000
+	for w := 0; w < workers; w++ {
+		wg.Add(1)
+		go func(w int) {
+			defer wg.Done()
+			for r := 0; r < rounds; r++ {
+				safe := conf.GetSafeOptions()
+				b, _ := json.Marshal(safe)
+				text := string(b)
+				if r%16 == 0 {
+					text += fmt.Sprintf(" %v %+v", safe, safe)
+				}
+				if l := c19uLeaks(text); len(l) > 0 {
+					mu.Lock()
+					if bad == "" {
+						bad = fmt.Sprintf("reader %d of %d concurrent ones, request %d: the masked configuration contains the %s", w, workers, r, strings.Join(l, ", "))
+					}
+					mu.Unlock()
+					return
+				}
+			}
+		}(w)
+	}
+	wg.Wait()
+	if bad != "" {
+		ev.Violate("C19|concurrent-config-readers", bad, c19uCase{Helper: "GetSafeOptions", Env: "concurrent"})
+	}
+	n := int64(workers * rounds)
+	ev.Eval(n)
+	ev.Trace(n)
+	ev.Trans(n)
+	ev.StatesAdd(n)
+	ev.NontrivialAdd(n)
 }
